@@ -444,6 +444,10 @@ func (x *runner) runScenario(sc scenario, d polyenv.Dump, cons []*polyenv.Acct, 
 	if stale != nil {
 		atoms = append(atoms, mkAtom("stale-operator", *stale))
 	}
+	if sc.Kind == "operator" && world == "epoch1" {
+		// a plausible WRONG operator: the m-of-n entry over all ACTIVE pool members (the seeded pool holds candidate C3)
+		atoms = append(atoms, mkAtom("all-active-members", polyenv.Multi(append(append([]*polyenv.Acct{}, cons...), e.accts["C3"]))))
+	}
 	var required common.Address
 	reqName := ""
 	switch sc.Kind {
@@ -456,6 +460,7 @@ func (x *runner) runScenario(sc scenario, d polyenv.Dump, cons []*polyenv.Acct, 
 	id := sc.ID + "|" + world
 	canonicalOK := false
 	var canonErr error
+	violBefore := r.NViolations()
 	for _, sub := range subsets(len(atoms), x.maxSubset) {
 		var signers []polyenv.Signer
 		addrs := map[common.Address]bool{}
@@ -504,7 +509,7 @@ func (x *runner) runScenario(sc scenario, d polyenv.Dump, cons []*polyenv.Acct, 
 			r.Class("commit_open_after_timeout")
 		}
 	}
-	if !canonicalOK {
+	if !canonicalOK && r.NViolations() == violBefore { // (with a violation in this scenario the verdict is the violation)
 		r.HarnessError("scenario %s: the canonical signer set (%s alone) does not succeed — the seeded state is wrong: %v", id, reqName, canonErr)
 	}
 	r.Class("scenario_done")
@@ -673,6 +678,7 @@ func main() {
 		}
 	}
 	x.emptyAddress(scens)
+	x.latentContextLeak()
 	// per-router summary
 	var routerRows []map[string]any
 	for _, rs := range e.routes {
